@@ -4,6 +4,7 @@ import IrVerif.Model.ScopeMeta
 import IrVerif.Model.ScopeFunc9
 import IrVerif.Model.ScopeExt
 import IrVerif.Model.ScopeEff
+import IrVerif.Model.ScopeCert
 /-! Protocol handler for the decoration layer `IrVerif.Model.ScopeMeta` (C03 / C17).
 
 SS      = [[key, value]]
@@ -315,7 +316,9 @@ def handle : Handler := fun m j =>
                   ("ser2_ok", toJson false)]
               | .ok (_, q2) => [("ser_ok", toJson true), ("q", graphEJ q), ("deser2_ok", toJson true),
                   ("ser2_ok", toJson true), ("q2", graphEJ q2)]
-        return obj ([("ok", toJson true)] ++ worldEJ w ++ extra)
+        -- the certificate `ReloadableE` (decision procedure of Model/ScopeCert.lean) on what was deserialized:
+        -- `deserializeE_reloadableE` proves it, so `false` here is a model / driver defect
+        return obj ([("ok", toJson true), ("reloadable_ext", toJson (reloadableEB w))] ++ worldEJ w ++ extra)
   | "scope.medeser" => some do
       -- extended model with functions (IR version >= 10 format)
       let p ← parseModelE j
@@ -360,8 +363,10 @@ def handle : Handler := fun m j =>
       let x ← parseExt (j.getObjValD "ext")
       let ver : Option Int := (j.getObjValAs? Int "ver").toOption
       let w : WorldE := ⟨w0.st, x, w0.root⟩
+      -- hypothesis of C03_roundtrip_ext_partial (and, in its core part, of C03_roundtrip_reloadable)
+      let cert : Bool := reloadableEB w
       match serializeE ver w with
-      | .error e => return obj [("ser_ok", toJson false), ("ser_err", eerrJ e)]
+      | .error e => return obj [("ser_ok", toJson false), ("ser_err", eerrJ e), ("reloadable_ext", toJson cert)]
       | .ok (w1, p) =>
         let twice : List (String × Json) :=
           match serializeE ver w1 with
@@ -370,8 +375,14 @@ def handle : Handler := fun m j =>
         let rt : List (String × Json) :=
           match deserializeE p with
           | .error e => [("deser_ok", toJson false), ("err", errJ e)]
-          | .ok w2 => [("deser_ok", toJson true), ("world2", worldJ w2.core), ("ext2", extJ w2.st w2.ext)]
-        return obj ([("ser_ok", toJson true), ("p", graphEJ p),
+          | .ok w2 =>
+            -- conclusion of C03_roundtrip_ext_partial: the reloaded model serializes to the same proto
+            let fix : Bool := match serializeE ver w2 with
+              | .ok (_, p3) => (graphEJ p3).compress == (graphEJ p).compress
+              | .error _ => false
+            [("deser_ok", toJson true), ("world2", worldJ w2.core), ("ext2", extJ w2.st w2.ext),
+              ("reload_fixpoint", toJson fix)]
+        return obj ([("ser_ok", toJson true), ("reloadable_ext", toJson cert), ("p", graphEJ p),
           ("tens_after", Json.arr ((List.range w1.st.nt).map fun i => tensorSJ (w1.st.tens i)).toArray)] ++ twice ++ rt
           ++ effReport ver w w1)
   | "scope.sites" => some do
